@@ -6,7 +6,7 @@ set -u
 name=$1; shift
 T=/tmp/seeded_$name
 export GOFLAGS=-mod=mod GOPROXY=off GOSUMDB=off GOTOOLCHAIN=local GOCACHE=/verif/.cache/go-build
-rm -rf "$T"; cp -r /repo "$T"; rm -rf "$T/.git/worktrees"
+rm -rf "$T"; cp -r /repo "$T"; rm -rf "$T/.git/worktrees"; (cd "$T" && git clean -fdXq)
 (cd "$T" && git apply /verif/seeded/$name/patch.diff && go build ./...) || { echo "SEEDED $name: patch does not apply/build"; rm -rf "$T"; exit 2; }
 cd /verif
 for c in "$@"; do
